@@ -6,7 +6,7 @@
 
 use crate::env::Ans;
 use crate::problems::{base, reflect, warp, Base, Prob, Warp};
-use crate::report::{is_thorough, Report, Violation};
+use crate::report::{is_thorough, CaseOut, Report, Violation};
 use crate::run::{mname, run, run_lowlevel, Cfg, Tol};
 use crate::tableau::{extract, extract_second_step, orders, residual, Extracted, Forest};
 use crate::util::DD;
@@ -162,6 +162,83 @@ fn radau_stability(rep: &mut Report, ex: &Extracted) {
             }
         }
     }
+}
+
+/// Radau over whole runs on y' = lambda y (2x2 rotation-scaling for complex lambda, exact user
+/// Jacobian, default Newton tolerance): EVERY accepted step multiplies the state by the Pade (2,3)
+/// approximant R(h_k lambda) — also the steps taken with re-used factorisations or Jacobians.
+fn radau_pade_every_step(rep: &mut Report) {
+    let lambdas: Vec<(f64, f64)> = vec![(-0.5, 0.0), (-2.0, 0.0), (-10.0, 0.0), (-50.0, 0.0), (0.5, 0.0), (-1.0, 3.0), (0.0, 2.0), (-5.0, 5.0), (-0.2, 8.0)];
+    let rtols = [1e-2, 1e-3, 1e-4, 1e-5, 1e-6, 1e-7, 1e-8, 1e-9];
+    let mut jobs = vec![];
+    for l in &lambdas {
+        for r in rtols {
+            for sign in [1.0, -1.0] {
+                jobs.push((*l, r, sign));
+            }
+        }
+    }
+    let outs = crate::util::par_map(jobs.len(), |k| {
+        let ((lr0, li0), rtol, sign) = jobs[k];
+        // backward runs integrate the reflected problem (lambda -> -lambda, t -> -t)
+        let (lr, li) = (lr0 * sign, li0 * sign);
+        let span = (4.0 / (lr0.abs() + li0.abs()).max(0.5)).min(6.0) * sign;
+        let p = Prob {
+            name: format!("linear lambda=({},{})", lr, li),
+            n: 2,
+            f: Arc::new(move |_t, y, d| {
+                d[0] = lr * y[0] - li * y[1];
+                d[1] = li * y[0] + lr * y[1];
+            }),
+            jac: Some(Arc::new(move |_t, _y| vec![lr, -li, li, lr])),
+            flow: None,
+            y0: vec![1.0, 0.25],
+            linear_homogeneous: true,
+        };
+        let mut c = Cfg::new(Method::RADAU, 0.0, span, &p.y0);
+        c.user_jac = true;
+        c.rtol = Tol::S(rtol);
+        c.atol = Tol::S(rtol * 1e-3);
+        let r = run_lowlevel(&p, &c, &[], &[], None, false);
+        let key = format!("padeall:{}:{}:{:e}:{}", lr0, li0, rtol, sign);
+        let mut out = CaseOut::default();
+        out.events = r.st.n_ode;
+        if r.ok().map(|i| i.status != Status::Success).unwrap_or(true) || r.recs.len() < 3 {
+            out.violations.push(Violation::new(&key, "outcome", format!("Radau on {} ended with {}", p.name, r.outcome_name()), json!({"key": key})).with("method", "RADAU"));
+            return out;
+        }
+        let mut worst: (f64, usize, f64) = (0.0, 0, 0.0);
+        for k in 0..r.recs.len() - 1 {
+            let (a, b) = (&r.recs[k], &r.recs[k + 1]);
+            let h = b.x - a.x;
+            let (zr, zi) = (h * lr, h * li);
+            let (z2r, z2i) = (zr * zr - zi * zi, 2.0 * zr * zi);
+            let (z3r, z3i) = (z2r * zr - z2i * zi, z2r * zi + z2i * zr);
+            let (nr, ni) = (1.0 + 0.4 * zr + z2r / 20.0, 0.4 * zi + z2i / 20.0);
+            let (dr, di) = (1.0 - 0.6 * zr + 0.15 * z2r - z3r / 60.0, -0.6 * zi + 0.15 * z2i - z3i / 60.0);
+            let dd = dr * dr + di * di;
+            let (pr, pi) = ((nr * dr + ni * di) / dd, (ni * dr - nr * di) / dd);
+            // the state as a complex number: y0 + i y1
+            let (er, ei) = (pr * a.y[0] - pi * a.y[1], pr * a.y[1] + pi * a.y[0]);
+            let e = (b.y[0] - er).hypot(b.y[1] - ei) / (a.y[0].hypot(a.y[1]) * (1.0 + pr.hypot(pi)));
+            if e > worst.0 {
+                worst = (e, k, h);
+            }
+            out.validated += 1;
+        }
+        if worst.0 > 1e-11 {
+            out.violations.push(
+                Violation::new(&key, "radau-pade-every-step", format!("step {} (h={:e}) of Radau on {} at rtol={:e}: y_new/y_old deviates from the Pade (2,3) value R(h*lambda) by {:e} (relative); the stage equations of a linear problem are solved exactly by one Newton iteration with the exact Jacobian", worst.1, worst.2, p.name, rtol, worst.0),
+                    json!({"key": key, "steps": r.recs.len() - 1})).with("method", "RADAU"),
+            );
+        }
+        out.tag("radau-pade-every-step");
+        let mut h = r.st.fp;
+        h.s(&key);
+        out.fp = Some(h.as_u128());
+        out
+    });
+    rep.absorb(outs);
 }
 
 /// (3) the real estimator evaluated on every tree: answering stage i with Phi_i(t)
@@ -412,6 +489,7 @@ pub fn run_check(replay: Option<Value>) -> i32 {
                     order_conditions(&mut rep, &forest, &ex, sign);
                     if m == Method::RADAU && sign > 0.0 {
                         radau_stability(&mut rep, &ex);
+                        radau_pade_every_step(&mut rep);
                     }
                     if sign > 0.0 {
                         estimator_on_trees(&mut rep, &forest, &ex);
@@ -459,7 +537,7 @@ pub fn run_check(replay: Option<Value>) -> i32 {
     rep.dims = json!({"methods": RK_METHODS.iter().map(|m| mname(*m)).collect::<Vec<_>>(), "h_signs": [1, -1], "rooted_trees_up_to_order": 9,
         "conditions": {"RK4": 8, "RK23": 4, "DOPRI5": 17, "DOP853": 200, "RADAU": 17}, "estimator_trees": "all trees of order <= q+1 at atol 1e-13 and 1e-8",
         "cross_validation": "6 nonlinear problems x 4 step sizes x both signs per explicit method", "local_order": "4 problems x both directions x h=2^-1..2^-8", "step_count": "2 problems x 9 tolerances"});
-    for t in ["second-step-tableau", "order-condition", "estimator-trees", "cross-validated", "local-order-ladder", "step-count-law", "radau-real-step-vs-pade"] {
+    for t in ["second-step-tableau", "order-condition", "estimator-trees", "cross-validated", "local-order-ladder", "step-count-law", "radau-real-step-vs-pade", "radau-pade-every-step"] {
         rep.require(t, 1);
     }
     rep.states_override = Some(forest.trees.len() as u64 * RK_METHODS.len() as u64);
